@@ -19,6 +19,7 @@ pub fn entries() -> Vec<(&'static str, crate::EntryFn)> {
         ("realjava", entry_realjava),
         ("realtcp", entry_realtcp),
         ("realhttp", entry_realhttp),
+        ("realfam", entry_realfam),
     ]
 }
 
@@ -424,4 +425,61 @@ fn entry_realhttp(args: &[&str]) -> String {
         Err(e) => format!("ERR {}", kind_name(&e.kind)),
     };
     format!("HTTP ;; - ;; T{elapsed} ;; {what}")
+}
+
+/// `realfam <v4|v6> <timeout_ms> <bursts a.b.c|-> <deliveries|.> <entry> <args…>`: ANY scripted UDP entry on real sockets.
+/// A loopback UDP server answers the n-th datagram it receives with the next `bursts[n]` deliveries of the list (`~` =
+/// nothing is sent for that delivery); the entry runs with no script installed, its address redirected to the server,
+/// read timeout `timeout_ms` (write / connect much longer).  Prints `<result> ;; <requests the server saw> ;; T<ms>`.
+fn entry_realfam(args: &[&str]) -> String {
+    if args.len() < 6 {
+        return "bad-case".into();
+    }
+    let (Some(bind), Ok(ms)) = (loopback(args[0]), args[1].parse::<u64>()) else { return "bad-case".into() };
+    let bursts: Vec<usize> = if args[2] == "-" { vec![] } else { args[2].split('.').filter_map(|x| x.parse().ok()).collect() };
+    let Some(script) = crate::net::parse_net_args(&[args[3]]) else { return "bad-case".into() };
+    let deliveries: Vec<Delivery> = match script.conns.into_iter().next() {
+        Some(ConnScript::Open(d)) => d,
+        _ => vec![],
+    };
+    let Some(inner) = crate::find_entry(args[4]) else { return "unknown-entry".into() };
+    let server = UdpSocket::bind(bind).expect("bind loopback");
+    server.set_read_timeout(Some(Duration::from_millis(10))).unwrap();
+    let addr: SocketAddr = server.local_addr().unwrap();
+    let stop = Arc::new(AtomicBool::new(false));
+    let seen: Arc<Mutex<Vec<Vec<u8>>>> = Arc::new(Mutex::new(Vec::new()));
+    let (stop2, seen2) = (stop.clone(), seen.clone());
+    let handle = std::thread::spawn(move || {
+        let mut next = deliveries.into_iter();
+        let mut burst = bursts.into_iter();
+        let mut buf = vec![0u8; 65536];
+        while !stop2.load(Ordering::Relaxed) {
+            if let Ok((n, from)) = server.recv_from(&mut buf) {
+                seen2.lock().unwrap().push(buf[.. n].to_vec());
+                for _ in 0 .. burst.next().unwrap_or(0) {
+                    if let Some(Delivery::Data(d)) = next.next() {
+                        let _ = server.send_to(&d, from);
+                    }
+                }
+            }
+        }
+    });
+    crate::net::set_real(Some((addr, ms)));
+    let t0 = Instant::now();
+    let out = std::panic::catch_unwind(std::panic::AssertUnwindSafe(|| inner(&args[5 ..])));
+    let elapsed = t0.elapsed().as_millis();
+    crate::net::set_real(None);
+    stop.store(true, Ordering::Relaxed);
+    let _ = handle.join();
+    let out = match out {
+        Ok(o) => o,
+        Err(e) => std::panic::resume_unwind(e),
+    };
+    let reqs = seen.lock().unwrap().clone();
+    format!(
+        "{} ;; {} ;; T{}",
+        out.split(" ;; ").next().unwrap_or(""),
+        reqs.iter().map(|d| hex(d)).collect::<Vec<_>>().join(","),
+        elapsed
+    )
 }
